@@ -68,7 +68,7 @@ def job(cfg):
         if o.status == "sat" and o.expect == "unsat":
             leaves = C.leaf_values(R, o.model)
             rep = replay_case({"kind": kind, "K": K, "mode": mode, "relation": relation, "leaves": leaves})
-            payload = {"property": PROP, "kernel": jr["kernel"], "cfg": cfg, "relation": relation, "leaves": leaves, "path": path.describe() if path else None, "replay_result": rep}
+            payload = {"property": PROP, "kernel": jr["kernel"], "cfg": cfg, "relation": relation, "leaves": leaves, "path": path.describe() if path else None, "replay_result": rep, "replay_call": {"fn": "harness.C09:replay_case", "args": {"case": {"kind": kind, "K": K, "mode": mode, "relation": relation, "leaves": leaves}}}}
             if rep["reproduced"]:
                 p = C.write_replay(PROP, "%s_%s_K%d_%s_%s" % (kind, mode, K, box, relation), payload)
                 jr["violations"].append({"kernel": jr["kernel"], "relation": relation, "signature": {"K": K, "box": box}, "replay": p, "detail": rep})
